@@ -274,7 +274,7 @@ def gen(rng, tier):
                         if cut <= len(ops) and rng.random() < 0.5:
                             ops = ops[:cut] + [["cancel"]] + ops[cut:]
                         cases.append({"kind": kind, "inputs": inputs, "ops": ops})
-    for _ in range(400 if tier == "quick" else 8000):
+    for _ in range(400 if tier == "quick" else 3000):
         kind = rng.choice(KINDS)
         n = rng.choice([1, 2, 3, 5, 8, 13, 25, 40])
         inputs = [[_rand_canc(rng), _rand_out(rng, i) if rng.random() < 0.25 else None] for i in range(n)]
